@@ -137,7 +137,11 @@ class Session(object):
             self.script = [(c, p) for (_, c, p) in BOOT_SCRIPT]
             self._n_boot = len(self.script)
         self.stage = "boot"
-        self.proto.makeConnection(self.transport)
+        try:
+            self.proto.makeConnection(self.transport)
+        except Exception as e:
+            self.exceptions.append(("boot", -1, repr(e)))
+            self.boot_failed = True
         if self.boot:
             self._pump_all()
             self.boot_writes = len(self.transport.writes)
@@ -159,7 +163,12 @@ class Session(object):
         while self.delivered < len(self.out):
             data = self.out[self.delivered:]
             self.delivered = len(self.out)
-            self.proto.dataReceived(data)
+            try:
+                self.proto.dataReceived(data)
+            except Exception as e:
+                self.exceptions.append(("boot", -1, repr(e)))
+                self.boot_failed = True
+                return
 
     def submit(self, rec, stage=None):
         """submit one command through the public API"""
